@@ -377,10 +377,9 @@ def grab(body, pattern, item):
         raise ExtractError(f'{item}: expected shape not found: /{pattern}/')
     return ' '.join(m.group(1).split())
 
-def gen_kernels(repo):
+def gen_kernels_dec(repo):
     dec = strip_comments(open(os.path.join(repo, 'src/decode.rs')).read())
-    enc = strip_comments(open(os.path.join(repo, 'src/encode.rs')).read())
-    out = ['/- GENERATED by tools/translate.py from src/decode.rs and src/encode.rs — do not edit -/',
+    out = ['/- GENERATED by tools/translate.py from src/decode.rs — do not edit -/',
            'import FlacModel.Model.Machine', 'namespace Flac.Gen', 'open Flac', '']
     rs = fn_body(dec, 'read_subframes')
     i32 = lambda *names: {n: (n.replace('_', ''), 'i32') for n in names}
@@ -486,6 +485,32 @@ def gen_kernels(repo):
     out.append('/-- `*i <<= header.wasted_bps` -/\n'
                'def decWastedShl32 (p : Profile) (i wasted : Int) : Res Int := shlS p 32 "read_subframe: <<= wasted_bps" i wasted\n'
                'def decWastedShl64 (p : Profile) (i wasted : Int) : Res Int := shlS p 64 "read_subframe: <<= wasted_bps" i wasted\n')
+    # --- end-of-stream decision of read_frame when the total is unknown
+    rf = ' '.join(fn_body(dec, 'read_frame').split())
+    if ('Err(Error::Io(err)) if err.kind() == std::io::ErrorKind::UnexpectedEof && header_reader.count == 0 => { return Ok(None); }' in rf
+            and 'let mut header_reader = crate::Counter::new(crc16_reader.by_ref());' in rf):
+        strict = 'true'
+    elif 'Err(Error::Io(err)) if err.kind() == std::io::ErrorKind::UnexpectedEof => { return Ok(None); }' in rf:
+        strict = 'false'
+    else:
+        raise ExtractError('read_frame: the unknown-total end-of-stream arm changed shape')
+    out.append('/-- with an unknown total, is an EOF INSIDE a frame header an error (true) or a clean end of stream (false)? '
+               'an EOF before the first header byte always ends the stream -/\n'
+               f'def decHeaderEofStrict : Bool := {strict}\n')
+    if 'Some(0) => return Ok(None),' not in rf or '(u64::from(block_size) == remaining || block_size > 14)' not in rf:
+        raise ExtractError('read_frame: known-total accounting / short-block rule changed shape')
+    over = 'if u64::from(block_size) > remaining { return Err(Error::TooManySamples); }' in rf
+    if '.map(|total| total.get() - self.current_sample)' not in rf:
+        raise ExtractError('read_frame: `remaining = total - current_sample` changed shape')
+    out.append('/-- is a frame longer than the samples remaining (by STREAMINFO) rejected with TooManySamples? -/\n'
+               f'def decOvershootIsError : Bool := {"true" if over else "false"}\n')
+    out.append('end Flac.Gen')
+    return '\n'.join(out) + '\n'
+
+def gen_kernels_enc(repo):
+    enc = strip_comments(open(os.path.join(repo, 'src/encode.rs')).read())
+    out = ['/- GENERATED by tools/translate.py from src/encode.rs — do not edit -/',
+           'import FlacModel.Model.Machine', 'namespace Flac.Gen', 'open Flac', '']
     # --- encoder
     cb = fn_body(enc, 'correlate_channels')
     e = grab(cb, r'\.map\(\|\(l,\s*r\)\|\s*(\(l\s*\+\s*r\)\s*>>\s*1)\)', 'correlate_channels: mid')
@@ -558,25 +583,6 @@ def gen_kernels(repo):
     out.append(f'/-- both candidates succeeded: `[fixed_output, lpc_output].into_iter().{m.group(1)}(|c| c.written())` -/\n'
                f'def encPickCandidate (fixedBits lpcBits : Nat) : Nat := '
                + ('if lpcBits < fixedBits then lpcBits else fixedBits' if m.group(1) == 'min_by_key' else 'if fixedBits ≤ lpcBits then lpcBits else fixedBits') + '\n')
-    # --- end-of-stream decision of read_frame when the total is unknown
-    rf = ' '.join(fn_body(dec, 'read_frame').split())
-    if ('Err(Error::Io(err)) if err.kind() == std::io::ErrorKind::UnexpectedEof && header_reader.count == 0 => { return Ok(None); }' in rf
-            and 'let mut header_reader = crate::Counter::new(crc16_reader.by_ref());' in rf):
-        strict = 'true'
-    elif 'Err(Error::Io(err)) if err.kind() == std::io::ErrorKind::UnexpectedEof => { return Ok(None); }' in rf:
-        strict = 'false'
-    else:
-        raise ExtractError('read_frame: the unknown-total end-of-stream arm changed shape')
-    out.append('/-- with an unknown total, is an EOF INSIDE a frame header an error (true) or a clean end of stream (false)? '
-               'an EOF before the first header byte always ends the stream -/\n'
-               f'def decHeaderEofStrict : Bool := {strict}\n')
-    if 'Some(0) => return Ok(None),' not in rf or '(u64::from(block_size) == remaining || block_size > 14)' not in rf:
-        raise ExtractError('read_frame: known-total accounting / short-block rule changed shape')
-    over = 'if u64::from(block_size) > remaining { return Err(Error::TooManySamples); }' in rf
-    if '.map(|total| total.get() - self.current_sample)' not in rf:
-        raise ExtractError('read_frame: `remaining = total - current_sample` changed shape')
-    out.append('/-- is a frame longer than the samples remaining (by STREAMINFO) rejected with TooManySamples? -/\n'
-               f'def decOvershootIsError : Bool := {"true" if over else "false"}\n')
     out.append('end Flac.Gen')
     return '\n'.join(out) + '\n'
 
@@ -1184,7 +1190,8 @@ def gen_shapes_enc(repo):
 GENERATORS = [
     ('Crc.lean', 'crc.rs CRC tables and update', gen_crc),
     ('Tables.lean', 'stream.rs header code tables', gen_tables),
-    ('Kernels.lean', 'decode.rs / encode.rs arithmetic kernels', gen_kernels),
+    ('KernelsDec.lean', 'decode.rs arithmetic kernels and read_frame facts', gen_kernels_dec),
+    ('KernelsEnc.lean', 'encode.rs arithmetic kernels and candidate-selection facts', gen_kernels_enc),
     ('EncConst.lean', 'encode.rs option ranges, limits and the declared-length checks', gen_encconst),
     ('Meta.lean', 'metadata constants, cue sheet limits and shape-checked facts', gen_meta),
     ('Par.lean', 'parallel feature facts', gen_par),
